@@ -6,7 +6,7 @@ REPO = os.environ.get("VERIF_REPO", "/repo")
 REPO_SRC = os.path.join(REPO, "src")
 DEPS = os.path.join(HERE, ".deps")
 WORK = os.path.join(HERE, ".work")
-EVIDENCE = os.path.join(HERE, "evidence")
+EVIDENCE = os.environ.get("VERIF_EVIDENCE_DIR") or os.path.join(HERE, "evidence")  # dev tools redirect mutation runs
 REPLAYS = os.path.join(HERE, "replays")
 KNOWN = os.path.join(HERE, "known_findings.json")
 WHEELS = "/opt/veriftools/wheels"
